@@ -91,6 +91,44 @@ def identify(w, href, is_coll):
     return m.group(1).decode() if m else "?"
 
 
+PROPFIND_HREFS = (
+    b'<?xml version="1.0" encoding="utf-8"?><D:propfind xmlns:D="DAV:" xmlns:C="urn:ietf:params:xml:ns:caldav" '
+    b'xmlns:A="urn:ietf:params:xml:ns:carddav"><D:prop><D:owner/><D:current-user-principal/><D:principal-URL/>'
+    b'<D:principal-collection-set/><C:calendar-home-set/><A:addressbook-home-set/>'
+    b'<C:calendar-user-address-set/><D:group-membership/><D:resourcetype/>'
+    b'</D:prop></D:propfind>')
+
+
+def property_hrefs(w, target):
+    """hrefs inside property values of a Depth 0 PROPFIND -> list of (property, href, verdict).
+    (schedule-inbox-URL / schedule-outbox-URL are left out: the inbox exists only in deployments
+    started with --defaults, scheduling itself is not implemented.)"""
+    out = []
+    r = w.request("PROPFIND", target, [("Depth", "0"), ("Content-Type", "text/xml")], PROPFIND_HREFS)
+    if r.status != 207:
+        return out
+    rs, _ = alpha.parse_multistatus(r.body)
+    for x in rs:
+        for tag, (st, el) in x.props.items():
+            if st != 200:
+                continue
+            for h in el.iter(DAV + "href"):
+                href = h.text or ""
+                if re.match(r"^[a-zA-Z][a-zA-Z0-9+.-]*:", href) and not href.startswith("http"):
+                    continue          # mailto: and friends
+                t = urllib.parse.urlsplit(href).path if "://" in href else href
+                g = w.raw("PROPFIND", t, [("Depth", "0"), ("Content-Type", "text/xml")], gamma.PROPFIND_ALL)
+                ok = g.status == 207
+                if ok:
+                    try:
+                        rr, _ = alpha.parse_multistatus(g.body)
+                        ok = len(rr) == 1 and (rr[0].status is None or rr[0].status < 400)
+                    except ValueError:
+                        ok = False
+                out.append((tag.rsplit("}", 1)[-1], href, "ok" if ok else "does-not-resolve(%d)" % g.status))
+    return out
+
+
 def run_layout(tree, frontend, prefix):
     w = World(frontend=frontend, prefix=prefix)
     recs = []
@@ -114,8 +152,18 @@ def run_layout(tree, frontend, prefix):
                         if is_coll and not (x.href or "").endswith("/"):
                             slash = False
                         got.append(identify(w, x.href, is_coll))
-                recs.append({"tree": live, "at": n["id"], "depth": depth, "got": got, "slash": slash,
+                bad = []
+                if depth == 0:
+                    bad = sorted({"%s" % p for (p, h, v) in property_hrefs(w, path_of(tree, n["id"])) if v != "ok"})
+                recs.append({"tree": live, "at": n["id"], "depth": depth, "got": got, "slash": slash, "badprops": bad,
                              "status": r.status, "frontend": frontend, "prefix": prefix.strip("/") or "root"})
+        # the principal and the home sets: hrefs in their property values
+        for target, ident in (("/user/", "principal"), (HOME, "home")):
+            bad = sorted({p for (p, h, v) in property_hrefs(w, target) if v != "ok"})
+            if bad:
+                recs.append({"tree": live, "at": "R", "depth": 0, "got": ["R"], "slash": True,
+                             "badprops": [ident + ":" + b for b in bad], "status": 207,
+                             "frontend": frontend, "prefix": prefix.strip("/") or "root"})
         return recs, refused
     finally:
         w.close()
